@@ -495,3 +495,72 @@ func verifH_CliInterleave() {
 	verifDrain()
 	verifAssert(verifLiveGoroutines() == 0, "C14.interleave-no-goroutine-left")
 }
+
+// S-SRV-INTERLEAVE (C01 C03 C08): the server's real receive loop, two RPCs opened back to back, their
+// request frames (envelope, two continuations, half-close) interleaved in every order: each handler gets
+// its own request, whole and unmixed, then end-of-stream; each is invoked exactly once.
+func verifH_SrvInterleave() {
+	car := &vSrvCarrier{ctx: context.Background(), endErr: io.EOF}
+	got := map[int64][]byte{}
+	eof := map[int64]bool{}
+	calls := map[int64]int{}
+	hm := grpchan.HandlerMap{}
+	hm.RegisterService(&grpc.ServiceDesc{ServiceName: "a", HandlerType: (*any)(nil), Streams: []grpc.StreamDesc{{StreamName: "s", ClientStreams: true, ServerStreams: true,
+		Handler: func(srv any, st grpc.ServerStream) error {
+			id := st.(*tunnelServerStream).streamID
+			calls[id]++
+			in := &wrapperspb.BytesValue{}
+			if err := st.RecvMsg(in); err != nil {
+				return err
+			}
+			got[id] = in.Value
+			eof[id] = st.RecvMsg(&wrapperspb.BytesValue{}) == io.EOF
+			return nil
+		}}}}, &vSvcImpl{"a"})
+	svr := &tunnelServer{stream: car, services: hm, tunnelOpts: &tunnelOpts{}, isClosing: func() bool { return false },
+		streams: map[int64]*tunnelServerStream{}, lastSeen: -1}
+	p1, p2 := verifBytes("payload1", 6), verifBytes("payload2", 6)
+	verifAssume(len(p1) == 6 && len(p2) == 6)
+	rev := tunnelpb.ProtocolRevision(verifChoice("revision", 2))
+	mk := func(id int64, w []byte) []*tunnelpb.ClientToServer {
+		a, b := len(w)/3, 2*len(w)/3
+		return []*tunnelpb.ClientToServer{
+			{StreamId: id, Frame: &tunnelpb.ClientToServer_RequestMessage{RequestMessage: &tunnelpb.MessageData{Size: uint32(len(w)), Data: w[:a]}}},
+			{StreamId: id, Frame: &tunnelpb.ClientToServer_MoreRequestData{MoreRequestData: w[a:b]}},
+			{StreamId: id, Frame: &tunnelpb.ClientToServer_MoreRequestData{MoreRequestData: w[b:]}},
+			{StreamId: id, Frame: &tunnelpb.ClientToServer_HalfClose{HalfClose: &emptypb.Empty{}}},
+		}
+	}
+	for _, id := range []int64{1, 2} {
+		car.script = append(car.script, &tunnelpb.ClientToServer{StreamId: id, Frame: &tunnelpb.ClientToServer_NewStream{NewStream: &tunnelpb.NewStream{
+			MethodName: "a/s", ProtocolRevision: rev, InitialWindowSize: initialWindowSize}}})
+	}
+	f1, f2 := mk(1, verifWire(p1)), mk(2, verifWire(p2))
+	i, j := 0, 0
+	for i < len(f1) || j < len(f2) {
+		if j == len(f2) || (i < len(f1) && verifBool("nextFromFirst")) {
+			car.script = append(car.script, f1[i])
+			i++
+		} else {
+			car.script = append(car.script, f2[j])
+			j++
+		}
+	}
+	if rev == 0 {
+		// no flow control: the one-slot queue needs its reader - the handlers run as the frames arrive
+		car.onRecv = func() {
+			if car.pos > 2 {
+				verifDrain()
+			}
+		}
+	}
+	err := svr.serve(nil)
+	verifDrain()
+	verifAssert(err == nil && car.pos == len(car.script), "C03.srv-interleave-every-frame-consumed")
+	verifAssert(calls[1] == 1 && calls[2] == 1, "C08.srv-interleave-one-invocation-each")
+	verifAssertBytesEq(got[1], p1, "C01.srv-interleave-first-handler-gets-its-own-request-whole")
+	verifAssertBytesEq(got[2], p2, "C01.srv-interleave-second-handler-gets-its-own-request-whole")
+	verifAssert(eof[1] && eof[2], "C01.srv-interleave-end-of-stream-after-the-request")
+	verifCover("srv-interleaved")
+	verifAssert(verifLiveGoroutines() == 0, "C14.srv-interleave-no-goroutine-left")
+}
